@@ -228,6 +228,69 @@ class Model:
                 if bc is not None:
                     c.bases.append(bc)
                     bc.subclasses.append(c)
+        self._alias_renamed_private_helpers()
+
+    # ------------------------------------------------------------------ renamed private helpers
+    @staticmethod
+    def fingerprint(f: "Func") -> str:
+        """A private helper's identity apart from its NAME: parameters, decorators and body (docstring removed, its own name blanked, so a
+        recursive helper keeps its fingerprint when it is renamed)."""
+        node = f.node
+        body = list(node.body)
+        if body and isinstance(body[0], ast.Expr) and isinstance(body[0].value, ast.Constant) and isinstance(body[0].value.value, str):
+            body = body[1:]
+        own = node.name
+
+        class _Blank(ast.NodeTransformer):
+            def visit_Name(self, n):  # noqa: N802
+                return ast.copy_location(ast.Name(id="<self>", ctx=n.ctx), n) if n.id == own else n
+
+            def visit_Attribute(self, n):  # noqa: N802
+                self.generic_visit(n)
+                return ast.copy_location(ast.Attribute(value=n.value, attr="<self>", ctx=n.ctx), n) if n.attr == own else n
+        import copy as _copy
+        dumped = [ast.dump(_Blank().visit(_copy.deepcopy(st)), annotate_fields=False, include_attributes=False) for st in body]
+        args = ast.dump(node.args, annotate_fields=False, include_attributes=False)
+        decos = [ast.dump(d, annotate_fields=False, include_attributes=False) for d in node.decorator_list]
+        return hashlib.sha256("\n".join([args] + decos + dumped).encode()).hexdigest()[:20]
+
+    def _alias_renamed_private_helpers(self) -> None:
+        """Rules and reference definitions name some PRIVATE helpers of the repository.  Renaming such a helper (same parameters, same body) is
+        house-keeping: when a name recorded in yv/refs/fingerprints.json is gone and exactly one new private routine of the same module (or class)
+        has the recorded fingerprint, the old name is kept as an alias of it.  Anything else stays a vanished anchor."""
+        path = os.path.join(os.path.dirname(os.path.abspath(__file__)), "refs", "fingerprints.json")
+        self.renamed: dict[str, str] = {}
+        if not os.path.isfile(path):
+            return
+        try:
+            import json
+            with open(path, encoding="utf-8") as fh:
+                base = json.load(fh)
+        except Exception:  # noqa: BLE001
+            return
+        current = {q: f for q, f in self.functions.items() if not f.module.path.startswith("<")}
+        by_print: dict[tuple, list[str]] = {}
+        for q, f in current.items():
+            if q in base:
+                continue
+            owner = q.rpartition(".")[0]
+            if f.node.name.startswith("_") and not f.node.name.startswith("__"):
+                by_print.setdefault((owner, self.fingerprint(f)), []).append(q)
+        for old, fp in sorted(base.items()):
+            if old in current:
+                continue
+            owner = old.rpartition(".")[0]
+            cands = by_print.get((owner, fp), [])
+            if len(cands) != 1:
+                continue
+            new = current[cands[0]]
+            self.functions[old] = new
+            self.renamed[old] = cands[0]
+            leaf = old.rpartition(".")[2]
+            if new.cls is not None:
+                new.cls.methods.setdefault(leaf, new)
+            else:
+                new.module.functions.setdefault(leaf, new)
 
     def add_reference_module(self, name: str, source: str) -> "Module":
         """Index a reference module written by a rule (published definitions as Python source) next to the repo's
